@@ -474,6 +474,19 @@ def run_grid_case(case, ctx, kernel):
 
 def run_grid(spec, ctx):
     rng = random.Random(spec["seed"] * 7919 + spec["part"] * 131 + 18)
+    if spec["part"] == 0:
+        # history: the same large grid (more than 1000 candidate tuples) asked for again in one
+        # process under a growing and then shrinking cross-truncation norm - each answer depends
+        # on its own arguments only (seed C18-r13-1: grid memo keyed without the norm)
+        for stop, dims in ((6, 4), (11, 3), (7, 4)):
+            for trunc in (0.5, 1, float("inf"), 0.8, 2, 0.5):
+                case = {"fn": rng.choice(["glexindex", "glexindex", "bindex"]), "start": 0,
+                        "stop": stop, "dims": dims, "trunc": trunc, "graded": True,
+                        "reverse": rng.random() < 0.5, "dims_spelling": "int", "history": True}
+                if case["fn"] == "bindex":
+                    case["ordering"] = rng.choice(["G", "GR", ""])
+                ctx.count("grid_history_cases")
+                ctx.run_case(case, lambda c: run_grid_case(c, ctx, spec["kernel"]))
     for i in range(spec["n"]):
         case = gen_grid(rng)
         if i < 2 and spec["part"] == 0:
